@@ -90,6 +90,9 @@ def gen(rng, tier):
     goodtxt = "%064x%064x1c" % (rng.randrange(1, NN0), rng.randrange(1, NN0))
     for v in substitute(goodtxt) + substitute("0x" + goodtxt, 2)[::7]:
         cases.append(Case("sig.parse " + hx(v), tags=("substituted",)))
+    from vlib.core import substitute_lookalikes
+    for v in substitute_lookalikes(goodtxt, 0, 4) + substitute_lookalikes("0x" + goodtxt, 2, 3):
+        cases.append(Case("sig.parse " + hx(v), tags=("substituted", "digit-lookalike")))
     # interoperation: a text of the printed form is accepted by `hash transaction --signature` for every kind of transaction
     # (the pre-EIP-155 legacy form included) and the hash is keccak256 of the signed payload carrying exactly (r, s, parity)
     from vlib import txgen
